@@ -150,6 +150,8 @@ pub enum Base<'a> {
         /// ID of requested LED
         id: u8,
     },
+    /// Leave
+    Exit,
     /// Get ADC value.
     ///
     /// Second paragraph of the description.
@@ -159,8 +161,6 @@ pub enum Base<'a> {
         samples: u32,
         channel: Option<u8>,
     },
-    /// Leave
-    Exit,
     #[command(name = "set")]
     Set {
         #[arg(short = 'k', long = "ключ")]
@@ -219,7 +219,7 @@ impl CmdSet for EnumSet {
     type C = Base<'static>;
     const NAME: &'static str = "enum";
     fn names() -> Vec<String> {
-        ["get-led", "get-adc", "exit", "set", "net"].iter().map(|s| s.to_string()).collect()
+        ["get-led", "exit", "get-adc", "set", "net"].iter().map(|s| s.to_string()).collect()
     }
     fn parse<'a>(raw: RawCommand<'a>) -> Result<String, ParseError<'a>> {
         <Base<'a> as FromRaw<'a>>::parse(raw).map(|c| format!("{:?}", c))
@@ -231,7 +231,7 @@ impl CmdSet for GroupSet {
     type C = Grouped<'static>;
     const NAME: &'static str = "group";
     fn names() -> Vec<String> {
-        ["get-led", "get-adc", "exit", "set", "net", "эхо", "go-to", "hello"]
+        ["get-led", "exit", "get-adc", "set", "net", "эхо", "go-to", "hello"]
             .iter()
             .map(|s| s.to_string())
             .collect()
